@@ -3,6 +3,9 @@
 # (the prompt contains only the property text and the worktree path; nothing from /verif)
 import json, os, subprocess, sys
 THEMES = {
+ "state": "ADDITIONAL CONSTRAINT FOR THIS ROUND: the defect must come from HIDDEN STATE that survives between calls: a cached length / degree / lookup result / visited set / last-found neighbour / sorted flag / memoised answer stored in the node, the adjacency, the container or the search object, which is not (or not always) invalidated when the graph changes or when the same object is used again. The first use on a fresh structure must behave exactly like the original; only a later call, after particular mutations in between, gives a wrong answer.",
+ "order": "ADDITIONAL CONSTRAINT FOR THIS ROUND: the defect must change an ORDER that the property pins down (relative order of a node's edges, order of edges in a path, order of nodes in an ordering, listed order in macros, order after a round trip, which of several parallel edges is removed or returned first) while leaving every SET or COUNT unchanged — so that a check comparing sorted or counted results cannot see it.",
+ "boundary": "ADDITIONAL CONSTRAINT FOR THIS ROUND: the defect must be an OFF-BY-ONE or boundary slip: the first or last element of a list (first edge of a node, last edge of a path, last member, last listed edge of a macro, last element of a document), a path of exactly one edge, a cycle of length one or two, index 0 versus index len-1, an empty prefix or suffix. Everything away from the boundary must behave exactly like the original.",
  "err": "ADDITIONAL CONSTRAINT FOR THIS ROUND: put the defect on an ERROR path or a DEGENERATE case that the property still covers: disconnecting an absent key or an already removed edge, a refused try_connect, removing an absent member, empty containers and empty graphs, single-node graphs, a search whose root has no edges / is an orphan / equals the target, an unreachable or non-existent target, deserialising empty or minimal documents, macros with zero nodes or zero edges, a node connected only to itself. The common, successful path must behave exactly like the original.",
  "combo": "ADDITIONAL CONSTRAINT FOR THIS ROUND: the defect must manifest only for a specific COMBINATION of algorithm configuration and graph feature that looks too exotic to have been tested: e.g. priority-first max() mode + transpose() + search_cycle; postorder + transpose + search_edges; search() and search_path() of the same configuration disagreeing; a filter together with a target that is the root's direct neighbour through a parallel edge; for_each on a cycle search; pfs where two nodes have equal values. Every other configuration must behave exactly like the original.",
  "opt": "ADDITIONAL CONSTRAINT FOR THIS ROUND: disguise the defect as an IMPROVEMENT — a performance optimisation or clean-up a maintainer could plausibly merge (swap_remove instead of remove, caching a length or a degree, an early exit, avoiding a clone, hoisting a lookup out of a loop, merging two passes into one, replacing an index loop by an iterator adaptor, reusing a buffer, relaxing a lock to a shorter section, ...). On most inputs the optimised code must behave exactly like the original; only particular inputs expose that the optimisation is wrong.",
